@@ -362,6 +362,8 @@ class Ctx:
                 return self.nonzero(a, depth + 1) and self.nonzero(b, depth + 1)
         if t and len(t) == 1 and t[0].startswith('-'):
             return self.nonzero(t[0][1:], depth + 1)
+        if t and len(t) == 2 and t[0] in ('Py.absI', 'Py.absQ', 'Py.absR'):
+            return self.nonzero(t[1], depth + 1)          # |x| = 0 iff x = 0
         return False
 
 
